@@ -128,7 +128,7 @@ theorem trans_remove {cfg : Config} {s : State} (inv : Inv cfg s) {q : Peer} (hq
       obtain ⟨p, hp, hc, _, hel⟩ := mem_updatePeer_elems hp'
       rw [hc]
       rcases hel with ⟨_, hel⟩ | ⟨_, hel⟩
-      · rw [hel] at he'; exact inv.elems.owner p hp e' (List.mem_of_mem_filter he')
+      · rw [hel] at he'; exact inv.elems.owner p hp e' ((List.mem_filter.1 he').1)
       · rw [hel] at he'; exact inv.elems.owner p hp e' he'
     · intro p' hp'
       obtain ⟨p, hp, _, _, hel⟩ := mem_updatePeer_elems hp'
@@ -147,7 +147,7 @@ theorem trans_remove {cfg : Config} {s : State} (inv : Inv cfg s) {q : Peer} (hq
       rw [List.mem_filter, hc]
       refine ⟨?_, by simpa using hne⟩
       rcases hel with ⟨_, hel⟩ | ⟨_, hel⟩
-      · rw [hel] at he'; exact inv.elems.indexed p hp e' (List.mem_of_mem_filter he')
+      · rw [hel] at he'; exact inv.elems.indexed p hp e' ((List.mem_filter.1 he').1)
       · rw [hel] at he'; exact inv.elems.indexed p hp e' he'
     · intro e' he'
       exact (inv.tbl e' (hmem.1 he').1).congr_peers hfc
@@ -437,8 +437,8 @@ theorem trans_change {cfg : Config} {s : State} (inv : Inv cfg s) {p : Peer} (hp
     refine ⟨inv.elems.congr hsk rfl, inv.fetches.congr hfc (Nat.le_refl _), ?_⟩
     intro e'' he''
     rcases hmem.1 he'' with rfl | ⟨h, _⟩
-    · exact ((inv.tbl e heall).congr_elem' (e' := { e with value := some v }) (List.Perm.refl _)
-        (fun _ _ => rfl)).congr_peers hfc
+    · exact (TblOK.congr_elem' (e := e) (e' := { e with value := some v }) (List.Perm.refl _)
+        (fun _ _ => rfl) (inv.tbl e heall)).congr_peers hfc
     · exact (inv.tbl e'' h).congr_peers hfc
   refine ⟨hinv, rfl, ?_, ?_, ?_, ?_⟩
   · intro c f h; exact (hasFetch_congr hfc).1 h
